@@ -188,6 +188,30 @@ def programs():
                                                 + dump("s", K) + dump("s2", K))
 
 
+def overload_programs():
+    """an operator overloaded by a function with a Referenz parameter that it changes, applied to a *value* parameter of
+    the calling function: the change stays inside that function's copy (label, source, expected stdout)"""
+    H = ('Binde "Duden/Ausgabe" ein.\n\nWir nennen die Kombination aus\n\tdem Text inhalt mit Standardwert "",\neine Kiste, und erstellen sie so:\n\t"eine Kiste mit <inhalt>"\n\n')
+    ops = [
+        ("binary:Text", 'Die Funktion op mit den Parametern z und w vom Typ Text Referenz und Buchstabe, gibt einen Text zurück, macht:\n\tSpeichere w in z an der Stelle 1.\n\tGib z zurück.\nUnd überlädt den "an der Stelle" Operator.\n\n',
+         "Text", '"alt"', "(p an der Stelle 'X')", "Text", "Der", "Schreibe lok auf eine Zeile.\n", "alt\n"),
+        ("binary:Kombination", 'Die Funktion op mit den Parametern a und n vom Typ Kiste Referenz und Zahl, gibt eine Zahl zurück, macht:\n\tSpeichere "NEU" in inhalt von a.\n\tGib n zurück.\nUnd überlädt den "plus" Operator.\n\n',
+         "Kiste", '(eine Kiste mit "alt")', "(p plus 1)", "Zahl", "Die", "Schreibe (inhalt von lok) auf eine Zeile.\n", "alt\n"),
+        ("unary:Kombination", 'Die Funktion op mit dem Parameter a vom Typ Kiste Referenz, gibt eine Zahl zurück, macht:\n\tSpeichere "NEU" in inhalt von a.\n\tGib 1 zurück.\nUnd überlädt den "Betrag" Operator.\n\n',
+         "Kiste", '(eine Kiste mit "alt")', "(der Betrag von p)", "Zahl", "Die", "Schreibe (inhalt von lok) auf eine Zeile.\n", "alt\n"),
+    ]
+    out = []
+    for lab, decl, ty, lit, use, rty, rart, show, exp in ops:
+        art = "Der" if ty == "Text" else "Die"
+        ret = {"Text": "einen Text", "Zahl": "eine Zahl"}[rty]
+        f = ('Die Funktion f mit dem Parameter p vom Typ %s, gibt %s zurück, macht:\n\t%s %s r ist %s.\n\tGib r zurück.\nUnd kann so benutzt werden:\n\t"f <p>"\n\n'
+             % (ty, ret, rart, rty, use))
+        haupt = ('Die Funktion haupt gibt nichts zurück, macht:\n\t%s %s lok ist %s.\n\t%s %s erg ist f lok.\n\t%sUnd kann so benutzt werden:\n\t"haupt"\n\nhaupt.\n'
+                 % (art, ty, lit[1:-1] if lit.startswith("(eine Liste") else lit, rart, rty, show))
+        out.append(("overload-referenz:" + lab, H + decl + f + haupt, exp))
+    return out
+
+
 def check(res, tier):
     sd = seed()
     broken = leanproj.prove(res, "Props.C08", "Props/C08.lean")
@@ -199,6 +223,16 @@ def check(res, tier):
     st = evalcorr.judge_programs(res, ddp, model, [p for _, p in labelled], cfgs, "alias-matrix", max_report=5)
     for lab, _ in labelled:
         res.nontrivial(lab)
+    fixed = overload_programs()
+    fcfgs = [pipeline.Config(opt=0), pipeline.Config(opt=1), pipeline.Config(opt=2)]
+    fouts = pipeline.farm(ddp, [({"main.ddp": src}, cfg, {}) for _, src, _ in fixed for cfg in fcfgs])
+    for k, (lab, src, want) in enumerate(fixed):
+        for cfg, r in zip(fcfgs, fouts[k * len(fcfgs):(k + 1) * len(fcfgs)]):
+            res.evaluations += 1
+            res.nontrivial(lab)
+            if r.cls != "ok" or r.stdout != want:
+                res.violation("%s:%s" % (lab, cfg.name()), "%s (%s): the caller's variable shows %r after a call that got it by value, expected %r (%s)" % (
+                    lab, cfg.name(), r.stdout[-80:], want, r.cls), {"program": src, "expected_stdout": want, "config": cfg.name(), "implementation": r.as_dict()})
     rnd = random_programs(sd + 31, 120 if quick else 1500, feats={"structs": True, "funcs": True, "variable": True, "refs": True})
     st2 = evalcorr.judge_programs(res, ddp, model, rnd, cfgs[:1] if quick else cfgs[:2], "random")
     evalcorr.report_broken(res, broken)
